@@ -51,7 +51,7 @@ PLAN = {
     "C06": {"level": "model_checking", "campaigns": [camp("c06", C.camp_c06)]},
     "C07": {"level": "model_checking", "campaigns": [camp("c07", C.camp_c07)]},
     "C08": {"level": "model_checking",
-            "campaigns": [camp("c08", C.camp_c08), {"name": "c08tlc", "tlcgen": "bv", "tags": Q}]},
+            "campaigns": [camp("c08", C.camp_c08), {"name": "c08tlc", "tlcgen": "bv", "tags": QC}]},
     "C09": {"level": "model_checking", "campaigns": [camp("c09", C.camp_c09, {"quick": ["opt", "opt-nopf", "chk"], "thorough": ["opt", "opt-nopf", "chk", "chk-nopf"]},
                                                          xbuild={"quick": ("opt", "opt-nopf"), "thorough": ("opt", "opt-nopf")})]},
     "C10": {"level": "model_checking", "campaigns": [camp("c10", C.camp_c10, QC)]},
